@@ -298,7 +298,12 @@ class BufferCursor(Cursor):
             return []
 
         result = []
+        pos = self.pos
         while x := self.matchre(r):
+            if self.pos == pos:
+                # NOTE: a zero-width match may still yield a group's text
+                break
+            pos = self.pos
             result.append(x)
         return result
 
@@ -560,7 +565,12 @@ class Buffer(Text):
             return []
 
         def takewhile_repeat_regex():
+            pos = self.pos
             while x := self.matchre(r):
+                if self.pos == pos:
+                    # NOTE: a zero-width match may still yield a group's text
+                    break
+                pos = self.pos
                 yield x
 
         return list(takewhile_repeat_regex())
